@@ -42,6 +42,37 @@ fn main() {
             for (name, values) in hbs_lms::verif_hooks::model_constants() {
                 util::Line::new("const").str("name", name).nums("v", &values).emit();
             }
+            // the type-code tables, probed: every code below 2^17, and every accepted code with each
+            // higher bit set (a truncating lookup would accept those)
+            let mut codes: Vec<u32> = (0..=0x2_0000u32).collect();
+            for base in 0..=0x20u32 {
+                for bit in 5..32 {
+                    codes.push(base | (1u32 << bit));
+                }
+                codes.push(base | 0xffff_ff00);
+                codes.push(base.wrapping_add(0xffff_ffe0));
+            }
+            codes.sort();
+            codes.dedup();
+            let (a, b, c, d) = hbs_lms::verif_hooks::type_code_tables::<hbs_lms::Sha256_256>(&codes);
+            for (name, rows) in [("OTS_FROM_U32", &a), ("OTS_GET_FROM_TYPE", &b)] {
+                for r in rows.iter() {
+                    util::Line::new("const").str("name", name).nums("v", &r[..]).emit();
+                }
+            }
+            for (name, rows) in [("LMS_FROM_U32", &c), ("LMS_GET_FROM_TYPE", &d)] {
+                for r in rows.iter() {
+                    util::Line::new("const").str("name", name).nums("v", &r[..]).emit();
+                }
+            }
+            util::Line::new("const").str("name", "TYPE_CODES_PROBED").nums("v", &[codes.len() as u64]).emit();
+            // chain counts of the rows under the other output sizes (p depends on n)
+            for (hname, n) in [("sha256_192", 24u64), ("sha256_128", 16u64)] {
+                let (_, b2, _, _) = with_hash!(hname, H => hbs_lms::verif_hooks::type_code_tables::<H>(&[1, 2, 3, 4]));
+                for r in b2.iter() {
+                    util::Line::new("const").str("name", "OTS_CHAINS_N").nums("v", &[n, r[0], r[2], r[3]]).emit();
+                }
+            }
             for (name, values) in hbs_lms::verif_hooks::build_constants() {
                 util::Line::new("const").str("name", name).nums("v", &values.iter().map(|x| *x as u64).collect::<Vec<_>>()).emit();
             }
